@@ -142,6 +142,12 @@ pub fn run_read(out: &mut Out, seed: u64, tier: &str) {
         b"\xff\n\nH 0 0 0\n".to_vec(),
         "1\n\nH\u{a0}1\u{2003}2\u{3000}3\n".as_bytes().to_vec(),
         b"1\n\nH 1_0 0 0\nC 0x1 0 0\nN 1e 0 0\nO . 0 0\nF 1.e1 .0e0 -0.\n".to_vec(),
+        // a count line that disagrees with the body (stale header, appended atoms, concatenated frames)
+        b"2\n\nH 0 0 0\nH 0 0 1\nH 0 0 2\n".to_vec(),
+        b"0\n\nH 0 0 0\n".to_vec(),
+        b"1\nframe 1\nH 0 0 0\n1\nframe 2\nH 0 0 1\n".to_vec(),
+        b"7\n\nH 0 0 0\nH 0 0 1\n".to_vec(),
+        b"-1\n\nH 0 0 0\n".to_vec(), b"2.0\n\nH 0 0 0\nH 0 0 1\n".to_vec(), b" 2 \n\nH 0 0 0\nH 0 0 1\nH 0 0 2\n".to_vec(),
     ];
     for c in 0..n_cases {
         // a well-formed file with varied spellings
@@ -172,7 +178,9 @@ pub fn run_read(out: &mut Out, seed: u64, tier: &str) {
             let mut ls: Vec<String> = text.split(eol).map(|s| s.to_string()).collect();
             let k = 2 + rng.below(n.max(1));
             let k = k.min(ls.len() - 1);
-            match rng.below(9) {
+            match rng.below(11) {
+                9 => { ls[0] = format!("{}", rng.below(n)); }                                   // fewer than the body holds
+                10 => { ls[0] = (*rng.pick(&["100", "-1", "2.0", "two", "", " 1 ", "18446744073709551616"])).to_string(); }
                 0 => { let mut t: Vec<&str> = ls[k].split_whitespace().collect(); if t.len() > 1 { t.remove(1 + rng.below(t.len() - 1)); } ls[k] = t.join(" "); }
                 1 => { let t: Vec<&str> = ls[k].split_whitespace().collect(); if t.len() > 2 { ls[k] = format!("{} {} {}", t[0], t[1], *rng.pick(&["x", "1..2", "--1", "1e", "0x10", "1,5", "NaNa", "1_0"])) + " " + &t[2..].join(" "); } }
                 2 => { let t: Vec<&str> = ls[k].split_whitespace().collect(); if !t.is_empty() { ls[k] = format!("{} {}", *rng.pick(&["Xx", "h", "HE", "D", "1", "", "Uue"]), t[1..].join(" ")); } }
